@@ -120,6 +120,49 @@ func runC21(c *eng.Ctx) {
 		}
 		return hasDefault
 	}, 1)
+	// the position is decided after the eviction, against the series' current oldest and newest entries: the tip case
+	// is e.Ts ≥ newest.Ts, the tail case e.Ts < oldest.Ts, both read from the list as it is now (the eviction of the
+	// write slot can remove the series' own newest or oldest entry)
+	{
+		var sw *ast.SwitchStmt
+		ast.Inspect(f.Body, func(n ast.Node) bool {
+			if s, ok := n.(*ast.SwitchStmt); ok && s.Tag == nil && strings.Contains(nodeText(s), "idx.newest = ce.nextIndex") {
+				sw = s
+			}
+			return true
+		})
+		conds := map[string]string{}
+		if sw != nil {
+			for _, cl := range sw.Body.List {
+				cc := cl.(*ast.CaseClause)
+				body := nodeText(&ast.BlockStmt{List: cc.Body})
+				key := ""
+				switch {
+				case strings.Contains(body, "idx.oldest = ce.nextIndex") && strings.Contains(body, "idx.newest = ce.nextIndex"):
+					key = "only"
+				case strings.Contains(body, "idx.newest = ce.nextIndex"):
+					key = "tip"
+				case strings.Contains(body, "idx.oldest = ce.nextIndex"):
+					key = "tail"
+				default:
+					key = "middle"
+				}
+				if cc.List == nil {
+					conds[key] = "default"
+				} else if l, ok := eng.LinearCmp(f.Info, cc.List[0]); ok {
+					conds[key] = l
+				} else {
+					conds[key] = nodeText(cc.List[0])
+				}
+			}
+		}
+		c.Check("R3", f.Where(), "the position switch tests the live ends of the series' list: only ⇐ !indexExists, tip ⇐ e.Ts ≥ newest.Ts, tail ⇐ e.Ts < oldest.Ts, middle otherwise",
+			conds["only"] == "!indexExists" && conds["tip"] == "+1*ce.exemplars[idx.newest].exemplar.Ts -1*e.Ts -1 < 0" && conds["tail"] == "-1*ce.exemplars[idx.oldest].exemplar.Ts +1*e.Ts < 0" && conds["middle"] == "default",
+			p.Pos(f.Body.Pos()), eng.KV(conds))
+		f.NoPath("R3", eng.Node("the position switch's tip test", func(g *eng.Graph, n ast.Node) bool {
+			return nodeText(n) == "e.Ts >= ce.exemplars[idx.newest].exemplar.Ts"
+		}), p.Call(S+".removeExemplar")) // evaluated after the eviction, never before it
+	}
 	c.CallersSubset("R3", S+".removeExemplar", 1, S+".AddExemplar", S+".shrink")
 	c.CallersSubset("R3", S+".removeIndex", 1, S+".AddExemplar", S+".shrink")
 	c.WritersSubset("R3", S+".nextIndex", 3, S+".AddExemplar", S+".grow", S+".shrink", S+".Resize", "tsdb:NewCircularExemplarStorage")
